@@ -26,6 +26,7 @@ typedef struct {
   int swapped, swaps, early, bad;
   int scheds; fiber_t* sched1; fiber_t* sched2;
   int mpmc_pushes, mpsc_pushes, unlocks, spin_unlocks, destroys, ctx_destroys, frees, marker_writes, yields, creates, balances, pops, null_pops;
+  int foreign; void* l_locb;
   fiber_state_t state0; int next_null; int kind, with_unlock, in_cw, cw_taken; void* value; void* l_cw;
   void* l_loc; fiber_state_t l_me_state;
 } ghost_t;
@@ -37,6 +38,7 @@ ghost_t G;
 _Atomic(void*) CW_LOC;
 fiber_t ME, NF, MF, OLD, DONEF, W1, W2;         /* me, the scheduler's next fiber, the maintenance fiber, the resumed manager's old/done fibers, waiters */
 fiber_manager_t VM0, VM1;
+fiber_spinlock_t SL_B; void* LOC_B; int MIGRATING;   /* a later fiber B's deferred actions (see fiber_mutex_unlock_internal below) */
 fiber_mutex_t MX; fiber_spinlock_t SL; mpmc_fifo_t MQ; mpmc_fifo_node_t MQN; mpsc_fifo_t SQ; mpsc_fifo_node_t SN, SN1, SN2; void* LOC; hazard_pointer_thread_record_t HREC;
 static void stub_mpmc_push(hazard_pointer_thread_record_t* h, mpmc_fifo_t* f, mpmc_fifo_node_t* n);
 static void* stub_mpmc_trypop(hazard_pointer_thread_record_t* h, mpmc_fifo_t* f);
@@ -57,8 +59,9 @@ static __thread fiber_manager_t* fiber_the_manager;   /* (tentative: defined fur
 #include "src/fiber_manager.c" /* woven */
 #undef free
 static fiber_manager_t* canonm(fiber_manager_t* m) { return m == &VM0 ? &VM0 : m == &VM1 ? &VM1 : 0; }
-static void spec_snap(void) { G.l_loc = LOC; G.l_me_state = ME.state; G.l_cw = *(void**)&CW_LOC; }
+static void spec_snap(void) { G.l_locb = LOC_B; G.l_loc = LOC; G.l_me_state = ME.state; G.l_cw = *(void**)&CW_LOC; }
 static void spec_step(int site) {
+  if (LOC_B != G.l_locb) { G.foreign++; G.l_locb = LOC_B; }
   if (LOC != G.l_loc) { G.marker_writes++; if (!G.swapped) G.early = 1; }
   if (*(void**)&CW_LOC != G.l_cw) { if (*(void**)&CW_LOC != 0 || G.cw_taken) G.bad = 1; G.cw_taken++; }
 }
@@ -100,8 +103,23 @@ fiber_t* fiber_scheduler_next(fiber_scheduler_t* s) { verif_sync(-3);
 void fiber_scheduler_schedule(fiber_scheduler_t* s, fiber_t* f) { PUB(); if (G.scheds == 0) G.sched1 = f; else G.sched2 = f; if (G.scheds < 100) G.scheds++; }
 void fiber_scheduler_load_balance(fiber_scheduler_t* s) { if (G.balances < 100) G.balances++; }
 fiber_t* fiber_create_no_sched(size_t st, fiber_run_function_t fn, void* p) { if (G.creates < 100) G.creates++; if (fn != &fiber_manager_thread_func) G.bad = 1; return &MF; }
-int fiber_mutex_unlock_internal(fiber_mutex_t* m) { PUB(); if (m != &MX) G.bad = 1; G.unlocks++; return FIBER_SUCCESS; }
-int fiber_spinlock_unlock(fiber_spinlock_t* s) { PUB(); if (s != &SL) G.bad = 1; G.spin_unlocks++; return FIBER_SUCCESS; }
+static void clear_slots(fiber_manager_t* m);
+/* unlocking a contended mutex wakes a waiter, and while that waiter is still between announcing itself and enqueueing, fiber_manager_wake_from_mpsc_queue
+   YIELDS: the caller may be switched away from in the middle of the unlock, stolen, and resumed on another kernel thread.  Meanwhile the kernel
+   thread it started on goes on: the fiber it switched to has completed this maintenance (the slots are empty), and a LATER fiber B that is just
+   suspending there has filled the slots with its own deferred actions — B's context is NOT saved yet. */
+int fiber_mutex_unlock_internal(fiber_mutex_t* m) {
+  PUB(); if (m != &MX) G.bad = 1; G.unlocks++;
+  if (MIGRATING) {
+    fiber_manager_t* m0 = canonm(fiber_the_manager); fiber_manager_t* m1 = m0 == &VM0 ? &VM1 : &VM0;
+    clear_slots(m0); m0->spinlock_to_unlock = verif_bool() ? &SL_B : 0; m0->set_wait_location = verif_bool() ? &LOC_B : 0; m0->set_wait_value = (void*)verif_u64();
+    m0->to_schedule = 0; m0->done_fiber = 0;
+    fiber_the_manager = m1; m1->current_fiber = &ME; clear_slots(m1);   /* (my own resume there was followed by that thread's maintenance) */
+    G.l_locb = LOC_B;
+  }
+  return FIBER_SUCCESS;
+}
+int fiber_spinlock_unlock(fiber_spinlock_t* s) { PUB(); if (s == &SL_B) { G.foreign++; return FIBER_SUCCESS; } if (s != &SL) G.bad = 1; G.spin_unlocks++; return FIBER_SUCCESS; }
 void fiber_context_destroy(fiber_context_t* c) { PUB(); G.ctx_destroys++; if (c != &OLD.context && c != &DONEF.context) G.bad = 1; }
 static void stub_free(void* p) { G.frees++; }
 static void stub_mpmc_push(hazard_pointer_thread_record_t* h, mpmc_fifo_t* f, mpmc_fifo_node_t* n) { PUB(); if (h != &HREC || f != &MQ || n != &MQN) G.bad = 1; G.mpmc_pushes++; }
@@ -112,7 +130,7 @@ static void clear_slots(fiber_manager_t* m) { m->done_fiber = 0; m->to_schedule 
 static int slots_clear(fiber_manager_t* m) { return !m->done_fiber && !m->to_schedule && !m->mpmc_to_push.fifo && !m->mpsc_to_push.fifo && !m->mutex_to_unlock && !m->spinlock_to_unlock && !m->set_wait_location; }
 static void init_any(void) {
   G.swapped = G.swaps = G.early = G.bad = G.scheds = G.mpmc_pushes = G.mpsc_pushes = G.unlocks = G.spin_unlocks = G.destroys = G.ctx_destroys = G.frees = G.marker_writes = 0;
-  G.yields = G.creates = G.balances = G.pops = G.null_pops = 0; G.kind = K_PLAIN; G.with_unlock = G.in_cw = G.cw_taken = 0; G.value = 0; G.sched1 = G.sched2 = 0; G.next_null = 0;
+  G.yields = G.creates = G.balances = G.pops = G.null_pops = 0; G.foreign = 0; MIGRATING = 0; G.kind = K_PLAIN; G.with_unlock = G.in_cw = G.cw_taken = 0; G.value = 0; G.sched1 = G.sched2 = 0; G.next_null = 0;
   LOC = (void*)verif_u64();
   clear_slots(&VM0); clear_slots(&VM1); VM0.maintenance_fiber = verif_bool() ? &MF : 0; VM1.maintenance_fiber = verif_bool() ? &MF : 0; VM0.yield_count = verif_u64(); VM1.yield_count = verif_u64();
   fiber_manager_state = FIBER_MANAGER_STATE_STARTED;
@@ -154,6 +172,18 @@ void h_maintenance(void) {
           "H: C01 maintenance performs each recorded action exactly once, with the recorded arguments, and none that was not recorded");
   VASSERT(LOC == (w ? v : loc0) && G.marker_writes == (w && v != loc0), "H: C01 the wake marker is written iff it was recorded, with the recorded value");
   VCANARY("maintenance can return");
+}
+void h_maintenance_migrating(void) {
+  init_any();
+  fiber_manager_t* m = any_mgr(); G.swapped = 1; MIGRATING = 1;
+  OLD.state = FIBER_STATE_WAITING; m->old_fiber = &OLD;
+  /* the predecessor parked with a deferred mutex release (condition wait, multi channel): that is the only slot it can have set besides the queue pushes */
+  m->mutex_to_unlock = &MX; m->mpsc_to_push.fifo = verif_bool() ? &SQ : 0; m->mpsc_to_push.node = &SN;
+  LOC_B = (void*)verif_u64(); spec_snap();
+  fiber_manager_do_maintenance(); verif_sync(-1);
+  VASSERT(!G.bad && G.unlocks == 1, "H: C01 maintenance releases the recorded mutex once");
+  VASSERT(G.foreign == 0, "H: C01 maintenance performs no deferred action of ANOTHER fiber: after the one step that can yield and migrate (the mutex release) it does not go back to the slots of the manager it started on — they may already hold the actions of a fiber whose context is not saved yet");
+  VCANARY("maintenance (migrating unlock) can return");
 }
 /* ---- the blocking helpers (yield by contract) ---- */
 static void stub_fiber_manager_yield(fiber_manager_t* m) {
